@@ -26,6 +26,7 @@ mod par;
 mod report;
 mod rng;
 mod session;
+mod tsan;
 
 fn usage() -> ! {
     eprintln!("usage: xsmon check <Cxx> [quick|thorough] | xsmon session <dir> [--serve]");
